@@ -203,4 +203,38 @@ def run(ctx):
             continue
         if r.cls != "error" or r.stdout != b"":
             ctx.violation("cli-malformed-hd-path", dict(op="hdwallet " + " ".join(rn["args"]), env=rn.get("env"), path_text=rn["bp"]), "refused, nothing printed", str(r)[:300])
+    # the path text given on the command line / in the environment selects exactly the key of the parsed path: hardened and
+    # normal last components, apostrophes at the very end of the value, quotes around it (malformed), via flag and HD_PATH
+    seed = pyref.bip39_seed(phrase, "")
+    good, runs = [], []
+    for comps in ([(1, 0)], [(0, 0)], [(1, 44), (1, 60), (1, 0)], [(1, 44), (1, 60), (1, 0), (0, 0), (1, 7)], [(1, B31 - 1)], [(0, B31 - 1)],
+                  [(rng.randrange(2), rng.randrange(B31)) for _ in range(rng.randrange(1, 6))] + [(1, rng.randrange(100))]):
+        t = "m/" + "/".join("%d%s" % (v, "'" if h else "") for h, v in comps)
+        key = pyref.bip32_derive(seed, [v | (B31 if h else 0) for h, v in comps])
+        want = None if key is None else "0x%064x\n" % key
+        for via in ("flag", "flag=", "env"):
+            args = ["export", "--mnemonic", phrase] + (["--hd-path", t] if via == "flag" else ["--hd-path=" + t] if via == "flag=" else [])
+            runs.append(dict(args=args, env=(dict(HD_PATH=t) if via == "env" else None)))
+            good.append((t, via, want))
+    for rn, (t, via, want), r in zip(runs, good, ctx.cli(runs)):
+        ctx.count("cli/hd-path-selects-the-parsed-path")
+        ctx.distinct(("clipath", t, via))
+        if want is not None and (r.cls != "ok" or r.stdout.decode() != want):
+            ctx.violation("cli-hd-path-selects-the-parsed-path", dict(op="hdwallet export --hd-path", path_text=t, via=via), want.strip(), str(r)[:300])
+    quoted = ["'m/0'", "\"m/0\"", "'m/0''", "m/0''", "m/0\"", "\"m/0'\"", "'m/44'/60'", "`m/0`", "m/0'\"", "m/'0"]
+    runs = [dict(args=["export", "--mnemonic", phrase, "--hd-path=" + q], q=q, via="flag") for q in quoted] + \
+           [dict(args=["address", "--mnemonic", phrase], env=dict(HD_PATH=q), q=q, via="env") for q in quoted]
+    for rn, r in zip(runs, ctx.cli(runs)):
+        ctx.count("cli/malformed-hd-path/quoted")
+        ctx.distinct(("quoted", rn["q"], rn["via"]))
+        if r.cls != "error" or r.stdout != b"":
+            ctx.violation("cli-malformed-hd-path", dict(op="hdwallet " + " ".join(rn["args"]), env=rn.get("env"), path_text=rn["q"]), "refused, nothing printed", str(r)[:300])
+    # the vanity search's own selectors are range-checked like the others: an index that is not below 2^31 is refused
+    vi = [B31, B31 + 1, (1 << 32) - 1, 1 << 32, (1 << 32) + 1, 1 << 33, (1 << 63), (1 << 64) - 1, 1 << 64, (1 << 64) + 1]
+    runs = [dict(args=["new", "--vanity-prefix", "0x", "-j", str(j), "--vanity-account-index", str(v)], v=v, timeout=60) for v in vi for j in (0, 1)]
+    for rn, r in zip(runs, ctx.cli(runs, timeout=60)):
+        ctx.count("cli/vanity-account-index-out-of-range")
+        ctx.distinct(("vanity-index", rn["v"], rn["args"][4]))
+        if r.cls != "error" or r.stdout != b"":
+            ctx.violation("cli-index-reject(vanity)", dict(op="hdwallet " + " ".join(rn["args"]), index=rn["v"]), "error, nothing printed", str(r)[:300])
     ctx.exhaustive["boundary values x 2 kinds x depth 1..8 x every position"] = True
